@@ -18,6 +18,13 @@ def main():
         from pyvc.runner import run_py
         with open(a.replay) as f:
             rp = json.load(f)
+        if rp.get("kind") == "bounded stand-in" and rp.get("standin"):
+            # re-run the stand-in (same tier/seed) and report whether the same key fails again on the current tree
+            sr = run_py("run_standin.py", {"module": "checks." + a.property, "name": rp["standin"], "tier": rp.get("tier", "quick"),
+                                           "seed": rp.get("seed", 0), "property": a.property}, timeout=3000)
+            hit = [f for f in sr.get("failures", []) if (f.get("key") or f.get("violated") or f.get("what")) == rp.get("key")]
+            print(json.dumps({"verdict": "reproduced" if hit else "not-reproduced", "failure": hit[:1]}, indent=1, default=str))
+            sys.exit(1 if hit else 0)
         if "failure" in rp and "function" in rp and "inputs" not in rp:
             print(json.dumps(rp["failure"], indent=1))
             sys.exit(1)
